@@ -15,11 +15,11 @@ CLAIMED = {
             "DESIGN.md 4 C01", "Trusts the harness programs' bookkeeping of what they submitted; header comparison is modulo http::HeaderMap grouping (cross-name order is not observable through the API).",
             SIM + ": seeded schedule/fault search, API-history oracle"),
     "C02": ("exploration",
-            "Wire accountant of the peer-granted credit per emitting endpoint, driven by the endpoint's own ordered frame-in/frame-out event log (exact processed/encoded instants): every DATA frame must fit the stream and connection windows it had been granted when it was encoded, including acknowledged SETTINGS deltas that make windows negative; cross-check of the endpoint's internal window against the wire at quiescent samples.",
+            "Wire accountant of the peer-granted credit per emitting endpoint, driven by the endpoint's own ordered frame-in/frame-out event log (exact processed/encoded instants): every DATA frame must fit the stream and connection windows it had been granted when it was encoded, including acknowledged SETTINGS deltas that make windows negative; at every sample with nothing in flight the endpoint's internal connection send window and every open stream's send window (incl. pushed streams) must equal the wire accountant's (books == wire).",
             "DESIGN.md 4 C02, 2.9a", "The event-log hooks (two one-line producers in the codec) report encode/decode order faithfully; independent frame parser.",
             SIM + ": wire monitor with exact event order"),
     "C03": ("exploration",
-            "Advertised-window accountant (no over-credit: stream credit never exceeds flow-controlled bytes processed, connection credit never exceeds the largest configured target; no zero increments), idle-state conservation check (window to give equals the configured target once everything is released or discarded) and a scripted-peer exhaustion probe (padded DATA, dropped/reset/refused streams, then the peer uses up its whole window: books equal wire, nothing leaked, nothing withheld above the update threshold).",
+            "Advertised-window accountant (no over-credit: stream credit never exceeds flow-controlled bytes processed, connection credit never exceeds the largest configured target; no zero increments), idle-state conservation check (window to give equals the configured target once everything is released or discarded) and a scripted-peer exhaustion probe (padded DATA, dropped/reset/refused streams, then the peer uses up its whole window: books equal wire, nothing leaked, nothing withheld above the update threshold); at every sample with nothing in flight the window the endpoint believes to have advertised, per connection and per stream still being read (incl. pushed streams), must equal acknowledged INITIAL_WINDOW_SIZE + WINDOW_UPDATEs sent - DATA processed.",
             "DESIGN.md 4 C03", "Credit for data on a stream whose receive handle was dropped is required at connection level only (h2 intentionally stops replenishing such a stream). Internal counters are read through the guarded stats hook.",
             SIM + ": wire accountant + exhaustion probe with scripted peer"),
     "C04": ("exploration",
@@ -35,7 +35,7 @@ CLAIMED = {
             "DESIGN.md 4 C06", "Programs are free of circular waits by construction (abandon tokens, eventual release, zero limits eventually raised); the executor never polls a task whose waker did not fire; quiescence with both transport writers blocked is outside the precondition.",
             SIM + ": strict wake-only executor, quiescence oracle"),
     "C07": ("fault_enumeration",
-            "For each sampled scenario a reference run is recorded, then the same tape is re-run once per cut point: every byte offset (dense prefix, then strided) of both directions and every executor step, for each ending kind (clean EOF, read error, write error, write-zero, abrupt cut, dropping the Connection, flush error, shutdown error); plus seeded fatal-fault and shutdown runs. Afterwards every handle operation must have resolved and a stream whose complete message had been processed before the ending must still deliver it.",
+            "For each sampled scenario a reference run is recorded, then the same tape is re-run once per cut point: every byte offset (dense prefix, then strided) of both directions and every executor step, for each ending kind (clean EOF, read error, write error, write-zero, abrupt cut, dropping the Connection, flush error, shutdown error); plus seeded fatal-fault and shutdown runs, with and without server push (push-promise waiters parked in their own task). Afterwards every handle operation must have resolved and a stream whose complete message had been processed before the ending must still deliver it.",
             "DESIGN.md 4 C07", "Per scenario the cut-point set is covered completely in the thorough tier up to the dense prefix (4096 offsets) and strided beyond; scenarios themselves are sampled.",
             SIM + ": cut-point sweep (fault enumeration) over seeded scenarios"),
     "C08": ("exploration",
@@ -51,27 +51,27 @@ CLAIMED = {
             "DESIGN.md 4 C10", "'For all header lists' is an input quantifier: contents are sampled by the generator, not searched by the scheduler.",
             SIM + ": wire tap + reference HPACK decoder"),
     "C11": ("exploration",
-            "Scripted peer encodes header blocks with every representation choice (indexed, literal with/without/never indexing, Huffman or raw, non-minimal integers), splits them into HEADERS+CONTINUATION at arbitrary offsets over a fragmenting transport, and mutates blocks into the RFC 7541 decoding errors; the endpoint must deliver exactly the reference decoder's field list or fail the connection when the reference says error.",
+            "Scripted peer encodes header blocks with every representation choice (indexed, literal with/without/never indexing, Huffman or raw, non-minimal integers), splits them into HEADERS+CONTINUATION at arbitrary offsets over a fragmenting transport, mutates blocks into the RFC 7541 decoding errors, and probes the first index past the dynamic table as the reference table defines it at that moment (also right after an insertion larger than the table, which must have emptied it); the endpoint must deliver exactly the reference decoder's field list or fail the connection when the reference says error.",
             "DESIGN.md 4 C11", "The exhaustive sub-clause (all Huffman strings / prefix integers up to a bound) is enumeration and is not claimed; inputs are sampled.",
             SIM + ": scripted peer, reference decoder as oracle"),
     "C12": ("exploration",
-            "All bytes any endpoint writes in T1/T2 pass an independent incremental RFC 9113 parser under arbitrary write chunking, Pending and vectored/non-vectored modes (parse failure, wrong fixed lengths, payload above the peer's acknowledged MAX_FRAME_SIZE are violations); the scripted peer sends all frame types with padding/priority/unknown flags in every read chunking and an oversize frame head alone, which must be answered with GOAWAY without waiting for the payload.",
+            "All bytes any endpoint writes in T1/T2 pass an independent incremental RFC 9113 parser under arbitrary write chunking, Pending and vectored/non-vectored modes (parse failure, wrong fixed lengths, payload above the peer's acknowledged MAX_FRAME_SIZE are violations); the scripted peer sends all frame types with padding/priority/unknown flags in every read chunking and an oversize frame head alone, which must be answered with GOAWAY without waiting for the payload; a framing-level GOAWAY in answer to a well-formed padded/priority/empty/CONTINUATION frame is a parse disagreement.",
             "DESIGN.md 4 C12", "The component-level codec pipe (T3) of the design is not built; the codec is exercised inside full connections only.",
             SIM + ": wire tap parser under I/O chunking faults"),
     "C13": ("exploration",
-            "Scripted peer sends requests/responses/trailers/1xx whose header sections are drawn from the RFC 9113 section 8 malformations (and valid unusual ones), split across CONTINUATION at any offset, with DATA that matches, undershoots or overshoots content-length; a reference validity predicate decides each: invalid messages must never reach accept()/ResponseFuture/trailers and the stream or connection must fail; valid ones must arrive unmodified.",
+            "Scripted peer sends requests/responses/trailers/1xx whose header sections are drawn from the RFC 9113 section 8 malformations (and valid unusual ones), split across CONTINUATION at any offset, with DATA frame sequences (zero-length and padded frames included) that match, undershoot or overshoot a drawn content-length (0 included); a reference validity predicate decides each: invalid messages must never reach accept()/ResponseFuture/trailers and the stream or connection must fail; valid ones must arrive unmodified.",
             "DESIGN.md 4 C13", "The predicate is a function of the input; simulation contributes fragmentation, stream state and DATA timing. The send-API half is covered only as far as C04's automaton (1xx/PUSH ordering).",
             SIM + ": scripted peer with reference validity predicate"),
     "C14": ("exploration",
-            "ACK accountant on the wire: the k-th SETTINGS processed is answered by the k-th SETTINGS ACK, each PING by one PING ACK with the same payload in order, never an ACK that answers nothing, none owed at quiescence; scripted bursts of SETTINGS/PING while the endpoint's writer is stalled; after its ACK every emitted frame obeys the new values (frame size, window deltas, table size, push); unsolicited SETTINGS ACK must be a connection error.",
-            "DESIGN.md 4 C14", "Settings are taken to apply at the instant the endpoint encodes the ACK (which is what h2 does).",
+            "ACK accountant on the wire: the k-th SETTINGS processed is answered by the k-th SETTINGS ACK, each PING by one PING ACK with the same payload in order, never an ACK that answers nothing, none owed at quiescence, none skipped (an endpoint that goes on encoding other frames after processing a SETTINGS/PING and never its acknowledgement) and none overtaken by more than 4 later frames (bounded promptness under write back-pressure, incl. a writer that is Pending on the first attempt of a poll and ready on the retry); scripted bursts of SETTINGS/PING while the endpoint's writer is stalled; after its ACK every emitted frame obeys the new values (frame size, window deltas, table size, push); unsolicited SETTINGS ACK must be a connection error.",
+            "DESIGN.md 4 C14", "Settings are taken to apply at the instant the endpoint encodes the ACK (which is what h2 does). The overtaking limit (4 frames) is a bounded-liveness reading of 'even under write back-pressure'; h2 itself encodes the acknowledgement before anything else.",
             SIM + ": wire ACK accountant under write back-pressure"),
     "C15": ("exploration",
-            "Graceful and abrupt server shutdown and client drop at drawn steps of multi-stream exchanges: GOAWAY last-stream-ids emitted never increase, no stream above a processed GOAWAY's last-stream-id is opened, a connection that sent an error GOAWAY fails its own future, streams complete or fail on every handle (C07 oracles), completed messages survive the shutdown.",
+            "Graceful and abrupt server shutdown and client drop at drawn steps of multi-stream exchanges: GOAWAY last-stream-ids emitted never increase, no stream above a processed GOAWAY's last-stream-id is opened, a connection that sent an error GOAWAY fails its own future, no GOAWAY(NO_ERROR) last-stream-id is below a stream already handed to the application, the client's connection result reports the server's code as a remote GOAWAY, after graceful_shutdown every accepted stream completes and the server closes the connection by itself once drained (T1 at the idle point; T2 against a scripted peer that never closes first, with keep-alive user pings in flight: final GOAWAY present, streams opened after it not processed, streams at or below it ended), streams complete or fail on every handle (C07 oracles), completed messages survive the shutdown.",
             "DESIGN.md 4 C15", "Debug-data propagation and the PING-delimited graceful sequence are observed through the same wire monitor but not asserted frame by frame.",
             SIM + ": GOAWAY monitor + outcome oracles"),
     "C16": ("exploration",
-            "poll_capacity never yields Some(Ok(0)); at sampled steps the capacity assigned to streams plus the unassigned remainder never exceeds the connection window and no stream is assigned more than its window (internal books), which agree with the wire accountant; at the idle point a fresh probe stream reserving 2^31-1 must be assigned exactly min(connection window, stream window) so that capacity stranded on finished, reset or dropped streams shows as a shortfall; capacity waiters finish in cooperative runs.",
+            "poll_capacity never yields Some(Ok(0)); at sampled steps the capacity assigned to streams plus the unassigned remainder never exceeds the connection window and no stream is assigned more than its window (internal books), which agree with the wire accountant; at the idle point a fresh probe stream reserving 2^31-1 must be assigned exactly min(connection window, stream window) so that capacity stranded on finished, reset or dropped streams shows as a shortfall; capacity waiters finish in cooperative runs; senders that use capacity() without waiting for the notification (stale notifications), and capacity() after the end of the body must be 0.",
             "DESIGN.md 4 C16", "The freeze experiment of the design is replaced by the books-vs-wire invariants (same truth, checked at every sample instead of at drawn freezes).",
             SIM + ": capacity invariants + probe stream at quiescence"),
     "C17": ("exploration",
@@ -79,7 +79,7 @@ CLAIMED = {
             "DESIGN.md 4 C17", "Exactly-one is enforced as 'never two and never on idle'; 'none when already closed' relies on C04's automaton.",
             SIM + ": wire RST counter + API error facts"),
     "C18": ("exploration",
-            "Hostile scripted floods (rapid reset, CONTINUATION, tiny/empty DATA, oversized headers, over-concurrency, PING/SETTINGS against a stalled writer, WINDOW_UPDATE/PRIORITY, PUSH_PROMISE and 1xx towards a client) with finite limits and slow or absent application accepts; after every step the guarded statistics snapshot (records, pending accepts, remembered resets, buffered events/bytes, queued frames, partial header bytes, codec buffers) must stay within bounds derived from the configuration plus what the application holds.",
+            "Hostile scripted floods (rapid reset, CONTINUATION, tiny/empty DATA with and without large padding, oversized headers, over-concurrency, PING/SETTINGS against a stalled writer, WINDOW_UPDATE/PRIORITY, PUSH_PROMISE and 1xx towards a client) with finite limits and slow or absent application accepts; after every step the guarded statistics snapshot (records, pending accepts, remembered resets, buffered events/bytes, queued frames, partial header bytes, codec buffers) must stay within bounds derived from the configuration plus what the application holds.",
             "DESIGN.md 4 C18", "Bounds are generous linear formulas (they separate bounded from unbounded growth, not tight accounting).",
             SIM + ": hostile floods + stats-bound oracle"),
     "C19": ("exploration",
